@@ -53,6 +53,7 @@ struct LThread {
     std::condition_variable cv;
     std::uint64_t writes_seen{0};
     std::uint64_t last_writes{0}; // writes_performed when this thread last returned from a yield
+    std::uint64_t last_ran{0};    // step at which this thread last held the baton (fairness)
     bool background{false};
     int bg_kind{0};
     char* stack_lo{nullptr};
@@ -92,6 +93,9 @@ public:
     std::vector<std::pair<std::uint64_t, int>> script;
     bool use_script{false};
     int script_first{0};
+    // C09: a case that does not finish within the step budget under the fair continuation is a violation, not an inconclusive run
+    bool fatal_on_step_limit{false};
+    std::uint64_t fairness_quantum{4000}; // a thread that ran this many consecutive steps hands over (round robin) if someone else can run
 
     // ---- statistics of the last run ---------------------------------------------------------------
     std::uint64_t steps{0};
@@ -121,6 +125,7 @@ public:
             workers_[i]->lt.state = TState::Runnable;
             workers_[i]->lt.yields = 0;
             workers_[i]->lt.last_writes = 0;
+            workers_[i]->lt.last_ran = 0;
             workers_[i]->lt.writes_seen = 0;
             workers_[i]->body = std::move(bodies[i]);
             workers_[i]->has_job = true;
@@ -128,6 +133,9 @@ public:
         // policy
         mode_ = bytes_.byte() % 3;
         script_pos_ = 0;
+        grant_rr_ = 0; // no scheduler state may survive from one case to the next
+        run_len_ = 0;
+        fair_rr_ = 0;
         if (use_script) { mode_ = 3; }
         if (!background_.empty() && mode_ == 2) { mode_ = 0; } // priority scheduling starves the workers behind never-ending background threads
         std::uint8_t t = bytes_.byte();
@@ -173,12 +181,29 @@ public:
         if (!active_ || released_.load()) { return; }
         ++steps;
         ++self->yields;
+        self->last_ran = steps;
+        ring_[ring_n_++ % 64] = RingEnt{self->id, kind, addr};
         if (trace.size() < 200000) { trace.push_back(static_cast<std::uint8_t>(self->id)); }
         if (steps > step_limit) {
+            if (fatal_on_step_limit) {
+                if (on_fatal) { on_fatal("step budget exhausted under a fair schedule"); }
+                std::fprintf(stderr, "last scheduling steps (thread:kind@addr):");
+                for (std::size_t i = 0; i < 48 && i < ring_n_; ++i) {
+                    const RingEnt& e = ring_[(ring_n_ - 1 - i) % 64];
+                    std::fprintf(stderr, " T%d:%x@%p", e.thread, static_cast<unsigned>(e.kind), e.addr);
+                }
+                std::fprintf(stderr, "\n");
+                for (auto* l : all_threads()) { std::fprintf(stderr, "thread %d state=%d yields=%llu\n", l->id, static_cast<int>(l->state), static_cast<unsigned long long>(l->yields)); }
+                std::fprintf(stdout, "FAIL signature=no_termination msg=the case did not finish within %llu scheduling steps although every runnable thread was scheduled at least every %llu steps (operations normally need a few hundred)\n",
+                             static_cast<unsigned long long>(step_limit), static_cast<unsigned long long>(fairness_quantum));
+                std::fflush(stdout);
+                _exit(4);
+            }
             release_all();
             return;
         }
         bool must_switch = false;
+        ++run_len_;
         if (access == yv::Y_SPIN) {
             self->state = (writes_performed_ > self->last_writes) ? TState::Runnable : TState::Blocked;
             // the load that saw the lock / dirty bit happened after the previous yield returned: any store since then counts
@@ -198,6 +223,12 @@ public:
             } else {
                 next = pick(c, self);
             }
+        } else if (run_len_ >= fairness_quantum && !c.empty()) {
+            // fairness: whatever the generated schedule says, nobody runs forever while others could
+            next = c[0];
+            for (auto* l : c) {
+                if (l->last_ran < next->last_ran) { next = l; } // the one that has waited longest
+            }
         } else if (access == yv::Y_SLEEP && !c.empty()) {
             // a sleeping (background) thread gives up the processor; it stays runnable: virtual time
             next = pick(c, self);
@@ -207,6 +238,7 @@ public:
         }
         if (next != self) {
             ++switches;
+            run_len_ = 0;
             current_ = next;
             next->cv.notify_one();
             self->cv.wait(lk, [&] { return current_ == self || released_.load(); });
@@ -366,6 +398,15 @@ private:
     std::uint64_t bg_iterations_[4]{0, 0, 0, 0};
     std::size_t grant_rr_{0};
     std::size_t script_pos_{0};
+    std::uint64_t run_len_{0};
+    std::size_t fair_rr_{0};
+    struct RingEnt {
+        int thread;
+        int kind;
+        const void* addr;
+    };
+    RingEnt ring_[64]{};
+    std::size_t ring_n_{0};
 
     static void set_stack_bounds(LThread* l) {
         pthread_attr_t attr;
